@@ -159,6 +159,14 @@ def extract_iter(
                         f"without reaching something irreducible; probably an "
                         f"infinite loop? (next result is {unwrapped!r})"
                     )
+                if unwrapped is not None and not _has_type(unwrapped, FrameIterator):
+                    # Look at what we got while we're still prepared for
+                    # exceptions: an object that objects to being looked at
+                    # is no different from a hook that raised
+                    if isinstance(unwrapped, collections.abc.Sequence):
+                        unwrapped = list(unwrapped)
+                    else:
+                        unwrapped = [unwrapped]
             except Exception as ex:
                 unwrapped = None
                 save_errors.append(ex)
@@ -172,7 +180,7 @@ def extract_iter(
                 to_elaborate.append((current, depth))
                 continue
 
-            if isinstance(unwrapped, FrameIterator):
+            if _has_type(unwrapped, FrameIterator):
                 it = unwrapped
                 unwrapped = []
                 while True:
@@ -186,12 +194,7 @@ def extract_iter(
                     else:
                         unwrapped.append(item)
 
-            rev_items: Iterable[StackItem]
-            if isinstance(unwrapped, collections.abc.Sequence):
-                rev_items = reversed(unwrapped)
-            else:
-                rev_items = (unwrapped,)
-            for item in rev_items:
+            for item in reversed(cast(List[StackItem], unwrapped)):
                 if item is not None:
                     to_unwrap.appendleft((better_origin(item, origin), item, depth + 1))
 
@@ -227,20 +230,26 @@ def extract_iter(
 
         # Elaborate the frame, see if we should redirect our attention
         # elsewhere
+        items: Optional[List[StackItem]]
         try:
             replacement = elaborate_frame(frame, next_inner)
+            # (the result is examined, and copied, in here for the same
+            # reason as the result of unwrap_stackitem above; a copy also
+            # means that any kind of sequence will do)
+            if replacement is None:
+                items = None
+            elif isinstance(replacement, collections.abc.Sequence):
+                items = list(replacement)
+            else:
+                items = [replacement]
         except Exception as ex:
             save_errors.append(ex)
             frame.hide = False
-            replacement = PRUNE
+            items = []  # same as PRUNE
 
         yield frame
-        if replacement is None:
+        if items is None:
             continue
-        if isinstance(replacement, collections.abc.Sequence):
-            items = replacement
-        else:
-            items = (replacement,)
 
         # We're replacing or augmenting the rest of the stack trace (at
         # this depth or below), so anything behind this in the elaboration
